@@ -3,6 +3,7 @@ package keycat
 import (
 	"bytes"
 	"context"
+	"errors"
 	"fmt"
 	"reflect"
 
@@ -79,14 +80,46 @@ type Blob struct {
 	Mem   *keyset.MemReaderWriter // MemReaderWriter
 }
 
+// flaky is the underlying io.Writer of the binary / JSON keyset writers: its FIRST use fails (the disk was full),
+// then it works. The keyset writer object is therefore a USED one whose previous write ended in an error: what is
+// read back after the next write must be exactly what that write stored.
+type flaky struct {
+	fail bool
+	buf  bytes.Buffer
+}
+
+func (f *flaky) Write(p []byte) (int, error) {
+	if f.fail {
+		return 0, errFlaky
+	}
+	return f.buf.Write(p)
+}
+
+var errFlaky = errors.New("keycat: injected write error")
+
+func decoys() (*tinkpb.Keyset, *tinkpb.EncryptedKeyset) {
+	ks := &tinkpb.Keyset{PrimaryKeyId: 0x7E57, Key: []*tinkpb.Keyset_Key{{KeyId: 0x7E57, Status: tinkpb.KeyStatusType_ENABLED, OutputPrefixType: tinkpb.OutputPrefixType_TINK,
+		KeyData: &tinkpb.KeyData{TypeUrl: "type.googleapis.com/verif.keycat.Decoy", Value: []byte{1, 2, 3}, KeyMaterialType: tinkpb.KeyData_SYMMETRIC}}}}
+	enc := &tinkpb.EncryptedKeyset{EncryptedKeyset: []byte("decoy"), KeysetInfo: &tinkpb.KeysetInfo{PrimaryKeyId: 0x7E57,
+		KeyInfo: []*tinkpb.KeysetInfo_KeyInfo{{TypeUrl: "type.googleapis.com/verif.keycat.Decoy", KeyId: 0x7E57, Status: tinkpb.KeyStatusType_ENABLED, OutputPrefixType: tinkpb.OutputPrefixType_TINK}}}}
+	return ks, enc
+}
+
 func (b *Blob) writer(format string, encrypted bool) (keyset.Writer, *bytes.Buffer) {
-	switch format {
-	case "binary":
-		buf := &bytes.Buffer{}
-		return keyset.NewBinaryWriter(buf), buf
-	case "json":
-		buf := &bytes.Buffer{}
-		return keyset.NewJSONWriter(buf), buf
+	if format == "binary" || format == "json" {
+		f := &flaky{fail: true}
+		var w keyset.Writer = keyset.NewBinaryWriter(f)
+		if format == "json" {
+			w = keyset.NewJSONWriter(f)
+		}
+		dk, de := decoys()
+		if encrypted {
+			w.WriteEncrypted(de)
+		} else {
+			w.Write(dk)
+		}
+		f.fail = false
+		return w, &f.buf
 	}
 	// The MemReaderWriter has been used before (another keyset was stored in the same place, in clear and encrypted
 	// form): what is read back after the next write must be what THAT write stored.
